@@ -19,6 +19,8 @@ def pOp : P Op := do
   | "D" => pure .deepcopyObj
   | "P" => pure .pickleObj
   | "L" => pure .loadResults
+  | "M0" => pure (.parallelStart false)
+  | "M1" => pure (.parallelStart true)
   | _ => failure
 
 def fmtOpt : Option Nat → String
